@@ -89,7 +89,8 @@ def generate(seed: int, tier: str) -> dict:
         if clones < 2 and (k == clone_at or (clones == 1 and chance(orr, 0.12))):
             src = pick(orr, alive)
             name = f"C{clones + 1}"
-            ops.append({"actor": name, "do": ["clone", src, chance(orr, 0.2)]})
+            # clone() with its default arguments, or with trace stated either way
+            ops.append({"actor": name, "do": ["clone", src, pick(orr, [None, None, False, True])]})
             alive.append(name)
             clones += 1
             continue
@@ -158,6 +159,8 @@ def ownership(clone, source):
                     bad.append(f"holder {name}: memory store shared with the original")
                 if holder._disk_storage is not None and holder._disk_storage is src._disk_storage:
                     bad.append(f"holder {name}: disk store shared with the original")
+    if clone.tracer is source.tracer:
+        bad.append("tracer (evaluation stack, trace trees, request counters) shared with the original")
     if clone.persons is not clone.populations[clone.persons.entity.key]:
         bad.append("persons is not the clone's person population")
     return bad
@@ -193,7 +196,8 @@ def run(scn) -> Result:
                     if src not in actors or a in actors:
                         continue
                     try:
-                        c = actors[src].clone(trace=bool(do[2]) if len(do) > 2 else False)
+                        how = do[2] if len(do) > 2 else None
+                        c = actors[src].clone() if how is None else actors[src].clone(trace=bool(how))
                     except Exception as e:  # noqa: BLE001
                         res.violate("C13.snapshot", step, op=do, error=type(e).__name__)
                         break
@@ -203,9 +207,10 @@ def run(scn) -> Result:
                     t = build_sim(world, scn["situation"], scn["knobs"], scn["inputs"])
                     for old in own[src]:
                         apply_op(t, world, old)
-                    want = bool(do[2]) if len(do) > 2 else False
-                    if bool(t.trace) != want:
-                        t.trace = want  # clone(trace=...) decides, whatever the source had
+                    want = bool(do[2]) if len(do) > 2 and do[2] is not None else False  # the default is "not traced"
+                    # clone(trace=...) decides, whatever the source had, and a clone starts
+                    # with a tracer of its own, empty
+                    t.trace = want
                     twins[a] = t
                     own[a] = list(own[src])
                     H.add(a, "clone", [src])
@@ -245,6 +250,8 @@ def run(scn) -> Result:
                     ra, rt = readable(actors[name], env), readable(twins[name], env)
                     ca = {f"{k[0]}@{k[1]}": canon(v) for k, v in ra.items()}
                     ct = {f"{k[0]}@{k[1]}": canon(v) for k, v in rt.items()}
+                    # what its tracer recorded is part of what is readable from a simulation
+                    ca["(trace)"], ct["(trace)"] = _trace_summary(actors[name]), _trace_summary(twins[name])
                     if ca != ct:
                         keys = sorted(k for k in set(ca) | set(ct) if ca.get(k) != ct.get(k))
                         res.violate(
@@ -286,7 +293,17 @@ def run(scn) -> Result:
         seams.Env.uninstall()
 
 
+def _trace_summary(sim):
+    tracer = sim.tracer
+    trees = getattr(tracer, "trees", None)
+    if trees is None:
+        return [bool(sim.trace), len(tracer.stack)]
+    return [bool(sim.trace), len(tracer.stack), [f"{t.name}<{t.period}>" for t in trees]]
+
+
 def _on_disk(sim, key):
+    if "@" not in key:
+        return False
     var, p = key.split("@", 1)
     loc = locations(sim)
     return loc.get((var, p)) in ("disk", "both")
